@@ -22,7 +22,7 @@ RULE = ('files from vlib.model.gen_file and writer programs; non-trivial = file 
 ASSUMPTIONS = ['a truncated data file beside a complete index must read like the truncated data file alone']
 REQUIRED = ['with_index_compared', 'index_opened_by_library', 'index_only_opens', 'index_only_data_reads_refused', 'family:model',
             'family:writer', 'family:truncated', 'family:marker', 'modes:read', 'modes:open', 'modes:read_metadata']
-N = {'quick': 1600, 'thorough': 15000}
+N = {'quick': 1600, 'thorough': 300000}
 
 
 def gen_cases(tier, seed):
